@@ -18,7 +18,13 @@
     the node base type: one class per name, the registered one, in every thread's tree.
     K1 type containers: histories of compile() / parse() calls over generations of the generated model module (new
     module object under the same name, reloaded file; typedefs, mapping, constructors, builderconfig, semantics): the
-    nodes of every call are instances of the classes given to THAT call.
+    nodes of every call are instances of the classes given to THAT call; the classes of a generation reach the call
+    through ONE container or split over several (mappings, namespace classes, module + overlapping mapping,
+    constructors= + typedefs=), in any order.
+    L1 lexical-type grammars (second grammar skeleton): several token rules typed int / float / bool / str / a class,
+    class-typed wrapper rules without names over several of them (one class holds 1, 1.0, True ... many times in a
+    process), class names that are case variants of one another (Num / NUM / NuM, IdList / IDList / IDLIST) on any two
+    or three classes; all the O1 / N2 / B1 / W1 / D1 / K1 checks run on them.
 """
 from __future__ import annotations
 
@@ -617,6 +623,167 @@ class GrammarCase:
         return ' '.join(item(depth) for _ in range(rng.randint(1, 3)))
 
 
+# ------------------------------------------------------------------ L1: lexical-type grammars
+# Second grammar skeleton (the first one has ONE builtin-typed token rule and class names that differ in whole words):
+# token rules tint tdec tword tflag, each typed with a builtin (int float str bool), a class ("lexical type") or nothing;
+# wrapper rules w0 (bare) w1 ('@') w2 ('%') typed with a class, over SEVERAL token rules, without names (the node's ast
+# is the converted scalar: 1, 1.0, True, '1' ... of whichever alternative matched), with an override or with a named
+# group; pair / seq / start around them.  Two things the first skeleton never had:
+#  * one class is instantiated many times, in one parse and across parses of the process, with scalar values of
+#    DIFFERENT types that compare equal (1 / 1.0 / True, 0 / 0.0 / False ...): token pools are small on purpose;
+#  * class names that are CASE VARIANTS of one another (Num / NUM / NuM, IdList / IDList / IdLIST / IDLIST), on any
+#    two or three classes of the grammar (wrappers, lexical types, pair, bases): distinct classes by the property text,
+#    the same name for anything that normalizes names (snake_case method names, caches, registries keyed by a
+#    derived name).
+# Everything else is the machinery of the main stream: prescription from the traced derivation (class, MRO, attributes,
+# exact scalar type and value), mirror, navigation, generated-class tree, N2, B1, W1 (twin names weigh more in the
+# method universe), D1, K1.
+LEX_RULES = ['tint', 'tdec', 'tword', 'tflag']
+LEX_PATTERNS = {'tint': r'/\d+/', 'tdec': r'/\d+\.\d+/', 'tword': '/[a-z]+/', 'tflag': "'?' @:/t?/"}
+LEX_BUILTINS = {'tint': ['int', 'int', 'float', 'str', 'bool'], 'tdec': ['float', 'float', 'str', 'bool'],
+                'tword': ['str', 'bool'], 'tflag': ['bool', 'bool', 'str']}
+LEX_TOKENS = {'tint': ['0', '1', '1', '2', '7', '10'], 'tdec': ['0.0', '1.0', '1.0', '2.0', '2.5', '10.0'],
+              'tword': ['a', 'bc', 'foo'], 'tflag': ['?t', '?']}
+TWIN_STEMS = [('Num',), ('Id', 'List'), ('Xml', 'Decl'), ('Http', 'Ref'), ('Lit',), ('Io', 'Val'), ('Ast', 'Node')]
+
+
+def case_variants(words):
+    """spellings of one name that differ in the case of letters only; the first two always have the same snake_case"""
+    camel = ''.join(words)
+    out = [camel, words[0].upper() + ''.join(words[1:])]
+    if len(words) > 1:
+        out += [words[0] + words[1].upper(), camel.upper()]
+    else:
+        out += [camel[:-1] + camel[-1].upper()]
+    return [v for i, v in enumerate(out) if v not in out[:i]]
+
+
+class LexCase(GrammarCase):
+    def __init__(self, rng, idx, k):
+        self.k = k                    # position in the family: features that must not be left to chance go by k
+        super().__init__(rng, idx)
+
+    def build(self):
+        rng, k = self.rng, self.k
+        numeric = k % 2 == 0          # tint::int tdec::float tflag::bool under nameless wrappers: 1 / 1.0 / True in one class
+        self.numeric = numeric
+        self.used_attrs = []
+        self.rule_attrs = {}
+        # -- which classes exist
+        lex_type: dict = {}
+        for t in LEX_RULES:
+            r = rng.random()
+            if numeric and t != 'tword':
+                lex_type[t] = {'tint': 'int', 'tdec': 'float', 'tflag': 'bool'}[t]
+            elif r < 0.5:
+                lex_type[t] = rng.choice(LEX_BUILTINS[t])
+            elif r < 0.85:
+                lex_type[t] = 'class'
+            else:
+                lex_type[t] = None
+        self.lex_type = lex_type
+        self.builtin = tuple(sorted({v for v in lex_type.values() if v and v != 'class'}))
+        have_w2 = rng.random() < 0.6
+        have_seq = rng.random() < 0.6
+        start_typed = rng.random() < 0.85
+        slots = ['Pair', 'W0', 'W1'] + (['W2'] if have_w2 else []) + (['Seq'] if have_seq else []) \
+            + (['Doc'] if start_typed else []) + [t.capitalize() for t in LEX_RULES if lex_type[t] == 'class']
+        # -- names: two or three classes get case variants of one stem
+        stem = TWIN_STEMS[(k // 2 + rng.randrange(2)) % len(TWIN_STEMS)]
+        variants = case_variants(stem)
+        ntw = 3 if rng.random() < 0.3 and len(variants) > 2 else 2
+        near = [s for s in slots if s not in ('Doc', 'Seq')]       # classes with many instances in every tree
+        if k % 4 < 2:
+            # the two variants with one snake_case name, on two of the classes that every tree is full of
+            chosen = rng.sample(variants[:2], 2) + rng.sample(variants[2:], ntw - 2)
+            where = rng.sample(['Pair', 'W0', 'W1'], 2)
+            where += rng.sample([s for s in near if s not in where], ntw - 2)
+        else:
+            chosen = rng.sample(variants, ntw)
+            where = rng.sample(near, min(ntw, len(near)))
+        if rng.random() < 0.25 and (k % 4 >= 2 or len(where) > 2):
+            where[-1] = rng.choice(['Base', 'Mid', 'Root', 'Doc' if start_typed else 'Base'])
+        self.names = {s: s for s in slots + ['Base', 'Mid', 'Root']}
+        for s, v in zip(where, chosen):
+            self.names[s] = v
+        self.twins = [self.cname(self.names[s]) for s in where]
+
+        def spec(slot):
+            # (every class is always written with its whole chain: consistent declarations, as in the main stream)
+            r = rng.random()
+            chain = [slot] if r < 0.45 else [slot, 'Base'] if r < 0.75 else [slot, 'Mid', 'Root']
+            return '::'.join(self.cname(self.names[c]) for c in chain)
+
+        # -- wrappers
+        def alternatives(pool, must, at_least):
+            alts = [t for t in pool if t in must or rng.random() < 0.6]
+            while len(alts) < at_least:
+                alts = list(dict.fromkeys(alts + [rng.choice(pool)]))
+            return [t for t in pool if t in alts]
+        num = ['tdec', 'tint']
+        self.w_alts = {'w0': alternatives(['tdec', 'tint', 'tword'], num if numeric else [], 2),
+                       'w1': alternatives(['tflag', 'tdec', 'tint', 'tword'], ['tflag', *num] if numeric else [], 2)}
+        if have_w2:
+            self.w_alts['w2'] = alternatives(['tflag', 'tdec', 'tint', 'tword'], [], 1)
+        styles = {'w0': 'bare' if numeric else rng.choice(['bare', 'bare', 'named']),
+                  'w1': 'override' if k % 4 == 0 else rng.choice(['override', 'override', 'named']),
+                  'w2': rng.choice(['override', 'named'])}
+        sigil = {'w0': '', 'w1': "'@' ", 'w2': "'%' "}
+        lines = [f'@@grammar :: {self.tag}']
+        st = f'::{spec("Doc")}' if start_typed else ''
+        body = f'{self.attr()}:' if rng.random() < 0.6 else ''
+        lines.append(f'start{st} = {body}{{ item }}* $ ;')
+        self.alts = ['pair'] + (['seq'] if have_seq else []) + sorted(self.w_alts, reverse=True)      # bare w0 last
+        self.leaf_alts = sorted(self.w_alts)
+        lines.append('item = ' + ' | '.join(self.alts) + ' ;')
+        rest = [f"pair::{spec('Pair')} = '(' {self.attr()}:item ',' {self.attr()}:item ')' ;"]
+        if have_seq:
+            inner = rng.choice(['{ item }', f'{self.attr()}:{{ item }}', '@:{ item }'])
+            rest.append(f"seq::{spec('Seq')} = '[' {inner} ']' ;")
+        for w, alts in self.w_alts.items():
+            group = ' | '.join(alts)
+            if styles[w] == 'bare':
+                bodyw = group
+            elif styles[w] == 'override':
+                bodyw = f'{sigil[w]}@:( {group} )' if len(alts) > 1 else f'{sigil[w]}@:{group}'
+            else:
+                bodyw = f'{sigil[w]}{self.attr()}:( {group} )'
+            rest.append(f'{w}::{spec(w.capitalize())} = {bodyw} ;')
+        for t in LEX_RULES:
+            typ = lex_type[t]
+            ann = '' if typ is None else f'::{spec(t.capitalize())}' if typ == 'class' else f'::{typ}'
+            rest.append(f'{t}{ann} = {LEX_PATTERNS[t]} ;')
+        rng.shuffle(rest)
+        self.text = '\n'.join(lines + rest) + '\n'
+
+    def sentence(self, rng, depth):
+        def tok(w):
+            t = rng.choice(self.w_alts[w])
+            return {'w0': '', 'w1': '@', 'w2': '%'}[w] + rng.choice(LEX_TOKENS[t])
+
+        def item(d):
+            k = rng.choice(self.alts if d > 0 else self.leaf_alts)
+            if k == 'pair':
+                return f'({item(d - 1)},{item(d - 1)})'
+            if k == 'seq':
+                return '[' + ' '.join(item(d - 1) for _ in range(rng.randint(0, 3))) + ']'
+            return tok(k)
+        return ' '.join(item(depth) for _ in range(rng.randint(2, 5)))
+
+
+def mixed_equal_scalars(value, by_cls=None):
+    """number of node classes whose instances hold (in .ast) scalars that compare equal but differ in type; `by_cls`
+    accumulates class name -> scalars over several trees"""
+    nodes: list = []
+    brute_nodes(value, nodes, cross=True)
+    by_cls = {} if by_cls is None else by_cls
+    for n in uniq(nodes):
+        a = vars(n).get('ast')
+        if isinstance(a, (bool, int, float, str)):
+            by_cls.setdefault(type(n).__name__, []).append(a)
+    return sum(1 for vs in by_cls.values() if any(a == b and type(a) is not type(b) for a in vs for b in vs))
+
+
 class Mark:
     """What the tracing semantics leaves where an annotated rule reduced."""
     __slots__ = ('spec', 'ast')
@@ -742,12 +909,18 @@ def conv_equal(m, p, builtin):
         return isinstance(m, list) and len(m) == len(p) and all(conv_equal(a, b, builtin) for a, b in zip(m, p))
     if m == p and type(m) is type(p):
         return True
-    if isinstance(p, str) and builtin in vars(builtins):
-        try:
-            c = vars(builtins)[builtin](p)
-            return c == m and type(c) is type(m)
-        except Exception:
-            return False
+    if isinstance(p, str):
+        # (the lexical-type grammars have several builtin-typed token rules: `builtin` is a tuple of names there; which
+        # one applies where is pinned by the `attrs` check, which knows the derivation)
+        for b in ((builtin,) if isinstance(builtin, str) else builtin):
+            if b not in vars(builtins):
+                continue
+            try:
+                c = vars(builtins)[b](p)
+            except Exception:
+                continue
+            if c == m and type(c) is type(m):
+                return True
     return False
 
 
@@ -991,13 +1164,26 @@ def run_grammars(chk: Check, mr: ModelRun):
             risky_plan.append(('class', cls, nm))
     for shp in RISKY_SHAPES:
         risky_plan.append(('shape', shp, shp))
-    plan = [None] * ngram + ['forest'] * nforest + risky_plan
+    nlex = 6 if chk.quick else 60
+    lrng = random.Random(f'C07-L1-{chk.seed}')     # own stream, and these grammars come last: the others stay what they were
+    plan = [None] * ngram + ['forest'] * nforest + risky_plan + ['lexical'] * nlex
+    nlexical = 0
     for gi, risky in enumerate(plan):
         forest = risky == 'forest'
-        risky = None if forest else risky
-        gc = GrammarCase(rng, next(_seq), risky, forest=forest)
-        feature = f'{risky[0]}-{risky[1]}' if risky else ('forest' if forest else 'plain')
-        chk.count('grammars.' + ('risky' if risky else 'forest' if forest else 'main'))
+        lexical = risky == 'lexical'
+        risky = None if forest or lexical else risky
+        if lexical:
+            gc = LexCase(lrng, next(_seq), nlexical)
+            nlexical += 1
+            chk.count('L1.scheme.' + ('int-float-bool-under-nameless-wrappers' if gc.numeric else 'random-token-types'))
+            chk.count('L1.twin-classes', len(gc.twins))
+            chk.count('L1.twin-pairs-with-one-snake-name',
+                      sum(1 for a, b in itertools.combinations(gc.twins, 2) if snake(a) == snake(b)))
+        else:
+            gc = GrammarCase(rng, next(_seq), risky, forest=forest)
+        feature = f'{risky[0]}-{risky[1]}' if risky else ('forest' if forest else 'lexical' if lexical else 'plain')
+        chk.count('grammars.' + ('risky' if risky else 'forest' if forest else 'lexical' if lexical else 'main'))
+        srng = lrng if lexical else rng
 
         groups: dict = {}
 
@@ -1030,7 +1216,7 @@ def run_grammars(chk: Check, mr: ModelRun):
         except Exception as e:
             report(f'genmodel-load-raises-{type(e).__name__}', f'generated model module does not load: {e}'[:300], '',
                    {'module': src[-1500:]})
-        texts = sorted({gc.sentence(rng, rng.randint(0, 3)) for _ in range(ninputs)}, key=len)
+        texts = sorted({gc.sentence(srng, srng.randint(0, 3)) for _ in range(6 if lexical and chk.quick else ninputs)}, key=len)
         if risky:
             texts = FIXED_SENTENCES + texts[:3]
         reported = set()
@@ -1063,6 +1249,8 @@ def run_grammars(chk: Check, mr: ModelRun):
             for n in sorted(gc.declared, key=lambda n: len(gc.ancestors(n))):
                 ModelBuilderSemantics()._default('x', '::'.join([n] + gc.ancestors(n)))
         wpool: list = []
+        lex_scalars: dict = {}
+        lex_mixed = 0
         for text in texts:
             ncases += 1
             try:
@@ -1087,6 +1275,10 @@ def run_grammars(chk: Check, mr: ModelRun):
                 continue
             traced = gt.parse(text, semantics=TraceSemantics())
             c1, c2 = canon_model(m1), canon_model(m2)
+            if lexical:
+                if mixed_equal_scalars(m2):
+                    chk.count('L1.inputs-with-equal-scalars-of-different-types-in-one-class')
+                lex_mixed = max(lex_mixed, mixed_equal_scalars(m2, lex_scalars))
             if c1 != c2:
                 once('asmodel-vs-semantics', 'compile(asmodel=True) and semantics=ModelBuilderSemantics() give different trees')
             # (1) the derivation with the annotated reductions marked erases to the plain AST
@@ -1146,6 +1338,9 @@ def run_grammars(chk: Check, mr: ModelRun):
                 br = build_request(traced, plain, m2, gc)
                 if br:
                     build_reqs.append(br)
+        if lexical and lex_mixed:
+            chk.count('L1.grammars-with-equal-scalars-of-different-types-in-one-class')
+            chk.count('L1.classes-with-equal-scalars-of-different-types', lex_mixed)
         if not risky and wpool:
             # the largest trees of both class families
             wpool.sort(key=lambda p: -len(node_orders(p[1])['dfs']))
@@ -1162,6 +1357,10 @@ def run_grammars(chk: Check, mr: ModelRun):
     chk.obligation('O1: model parse vs plain parse on generated annotated grammars', 'oracle',
                    not any(not v['signature'].startswith(('corr:', 'walk-dispatch:', 'genmodel-bases:', 'containers:',
                                                           'concurrent-first-use:')) for v in chk.violations))
+    chk.obligation('L1: the lexical-type grammars reached what they are for: classes holding equal scalars of different '
+                   'types, twin class names with one snake_case name', 'oracle',
+                   chk.dist.get('L1.grammars-with-equal-scalars-of-different-types-in-one-class', 0) > 0
+                   and chk.dist.get('L1.twin-pairs-with-one-snake-name', 0) > 0)
     chk.obligation('H1: classes of the generated model module have the base classes the grammar declares (chains of '
                    'all rules together: rule classes as bases, shared rule-less classes, chains that stop at a class '
                    'declared elsewhere, any rule order)', 'oracle',
@@ -1829,6 +2028,10 @@ def run_dispatch(chk: Check, gc, wpool, nhist, d1_batch):
                 if c.__name__ not in names_ and c.__name__ not in ('ModelBase', 'SynthNode'):
                     names_.append(c.__name__)
     universe = sorted(names_) + ['Node', 'Node']
+    # (classes whose names are case variants of one another: every second method of a history is named after one of them)
+    twins = [n for n in getattr(gc, 'twins', []) if n in names_]
+    if len(twins) > 1:
+        universe += twins * max(1, len(universe) // len(twins))
     graphs = [class_graph(t) for t in trees]
     deep = catch_all_probe(chk, gc, wpool)
     if rng.random() < 0.3 and not deep:
@@ -2261,8 +2464,48 @@ K1_COMPILE_HOWS = ['compile-typedefs', 'compile-typedefs-mapping', 'compile-cons
 K1_PARSE_HOWS = ['parse-time-semantics', 'generated-semantics', 'api-parse-typedefs']
 K1_PLAIN_HOWS = ['plain', 'api-parse-plain', 'parse-time-none']                     # no container: generation 0
 K1_SYNTH_HOWS = ['asmodel', 'api-parse-asmodel']
+# Layouts: `typedefs` is a LIST of containers (modules, mappings, classes used as namespaces) and may be combined with
+# `constructors`.  Every step that hands a generation over through typedefs does it in one of these ways: 'one' (the
+# module), 'split' (the classes of the generation partitioned over two or three mappings / namespace classes, in a random
+# order), 'overlap' (the module and, before or after it, a mapping with some of its classes: a class reachable through
+# two containers), 'mixed' (some classes through constructors=, the others through a typedefs mapping).  Written in the
+# step as 'kind:seed' so that a shrunk history splits the classes the same way.
+K1_LAYOUT_HOWS = ['compile-typedefs', 'compile-builderconfig', 'compile-semantics', 'parse-time-semantics',
+                  'api-parse-typedefs']
+K1_LAYOUTS = ['one', 'split', 'split', 'overlap', 'mixed']
 _SCRATCH: list = []
 _kcount = itertools.count()
+
+
+def layout_containers(layout, mod, classes):
+    """-> {'typedefs': [...]} or {'typedefs': [...], 'constructors': [...]} for the classes of one generation"""
+    kind, _, seed = layout.partition(':')
+    if kind == 'one':
+        return {'typedefs': [mod]}
+    rng = random.Random(f'C07-K1-layout-{seed}')
+    names_ = sorted(classes)
+    rng.shuffle(names_)
+
+    def container(group):
+        part = {n: classes[n] for n in group}
+        if rng.random() < 0.5:
+            return part
+        # a class used as a namespace (types_defined_in looks at its __module__)
+        return type('V7Part', (), {'__module__': mod.__name__, **part})
+    if kind == 'split':
+        nparts = min(len(names_), rng.choice([2, 2, 3]))
+        cuts = sorted(rng.sample(range(1, len(names_)), nparts - 1))
+        groups = [names_[a:b] for a, b in zip([0, *cuts], [*cuts, len(names_)])]
+        return {'typedefs': [container(g) for g in groups]}
+    some = names_[:rng.randint(1, max(1, len(names_) - 1))]
+    if kind == 'overlap':
+        tds = [mod, container(some)]
+        if rng.random() < 0.5:
+            tds.reverse()
+        return {'typedefs': tds}
+    if kind == 'mixed':
+        return {'constructors': [classes[n] for n in some], 'typedefs': [container([n for n in names_ if n not in some])]}
+    raise ValueError(layout)
 
 
 def scratch_dir():
@@ -2312,6 +2555,12 @@ def gen_container_history(rng, flavour, primary_how):
             steps.append(('use', primary_how, 1))               # the old module object is still there: back to it
         else:
             steps += [('gen', 3), ('use', primary_how, 3)]
+    # (drawn after everything else: the histories of a seed keep their steps)
+    for i, s_ in enumerate(steps):
+        if s_[0] == 'use' and s_[1] in K1_LAYOUT_HOWS and s_[2] > 0:
+            kind = rng.choice(K1_LAYOUTS)
+            if kind != 'one':
+                steps[i] = (*s_, f'{kind}:{rng.randrange(1000)}')
     return steps
 
 
@@ -2343,9 +2592,10 @@ def run_container_history(gc, src, steps, flavour, texts, refs, gp):
         state['mod'] = mod
         gens[k] = (mod, {n: c for n, c in vars(mod).items() if isinstance(c, type) and c.__module__ == modname})
 
-    def parser_of(how, k):
+    def parser_of(how, k, layout='one'):
         """the model-building parse of the step as a function of the input (compiled once per step)"""
         mod, classes = gens.get(k, (None, None))
+        given = layout_containers(layout, mod, classes) if how in K1_LAYOUT_HOWS else None
         plain = gp                      # (compiled without builder options under another name)
         if how == 'parse-time-none':
             return plain.parse
@@ -2358,36 +2608,38 @@ def run_container_history(gc, src, steps, flavour, texts, refs, gp):
         if how == 'api-parse-asmodel':
             return lambda text: tatsu.parse(gtext, text, name=pname, asmodel=True)
         if how == 'compile-typedefs':
-            return tatsu.compile(gtext, name=pname, typedefs=[mod]).parse
+            return tatsu.compile(gtext, name=pname, **given).parse
         if how == 'compile-typedefs-mapping':
             return tatsu.compile(gtext, name=pname, typedefs=[dict(classes)]).parse
         if how == 'compile-constructors':
             return tatsu.compile(gtext, name=pname, constructors=list(classes.values())).parse
         if how == 'compile-builderconfig':
-            return tatsu.compile(gtext, name=pname, builderconfig=BuilderConfig(typedefs=[mod])).parse
+            return tatsu.compile(gtext, name=pname, builderconfig=BuilderConfig(**given)).parse
         if how == 'compile-semantics':
-            keep.append(ModelBuilderSemantics(typedefs=[mod]))
+            keep.append(ModelBuilderSemantics(**given))
             return tatsu.compile(gtext, name=pname, semantics=keep[-1]).parse
         if how == 'parse-time-semantics':
-            return lambda text: plain.parse(text, semantics=ModelBuilderSemantics(typedefs=[mod]))
+            return lambda text: plain.parse(text, semantics=ModelBuilderSemantics(**given))
         if how == 'generated-semantics':
             return lambda text: plain.parse(text, semantics=classes[semname]())
         if how == 'api-parse-typedefs':
-            return lambda text: tatsu.parse(gtext, text, name=pname, typedefs=[mod])
+            return lambda text: tatsu.parse(gtext, text, name=pname, **given)
         raise ValueError(how)
 
     for si, step in enumerate(steps):
         if step[0] == 'gen':
             make(step[1])
             continue
-        _, how, k = step
+        how, k = step[1], step[2]
+        layout = step[3] if len(step) > 3 else 'one'
+        how_label = how if layout == 'one' else f'{how}+{layout.partition(":")[0]}'
         parse = None
         for text in texts:
             try:
-                parse = parse or parser_of(how, k)
+                parse = parse or parser_of(how, k, layout)
                 tree = parse(text)
             except Exception as e:                          # noqa: BLE001
-                out.append((si, how, f'raises-{type(e).__name__}', {'input': text, 'error': str(e)[:300]}))
+                out.append((si, how_label, f'raises-{type(e).__name__}', {'input': text, 'error': str(e)[:300], 'layout': layout}))
                 break
             nodes: list = []
             brute_nodes(tree, nodes, cross=True)
@@ -2418,7 +2670,7 @@ def run_container_history(gc, src, steps, flavour, texts, refs, gp):
                 if fail is None and canon_model(tree) != refs['generated'][text]:
                     fail = 'tree-differs'
             if fail:
-                out.append((si, how, fail, {'input': text, 'generation_given': k}))
+                out.append((si, how_label, fail, {'input': text, 'generation_given': k, 'layout': layout}))
                 break
     return out
 
@@ -2443,6 +2695,8 @@ def run_containers(chk: Check, rng, gc, src, texts, gp, gensem_cls):
     for s in steps:
         if s[0] == 'use':
             chk.count('K1.how.' + s[1])
+            if s[1] in K1_LAYOUT_HOWS and s[2] > 0:
+                chk.count('K1.layout.' + (s[3].partition(':')[0] if len(s) > 3 else 'one'))
     chk.case('containers:' + gc.text + json.dumps(steps) + flavour, nontrivial=True)
     failures = run_container_history(gc, src, steps, flavour, texts, refs, gp)
     reported = set()
@@ -2465,7 +2719,8 @@ def run_containers(chk: Check, rng, gc, src, texts, gp, gensem_cls):
             return outs
         small = None
         before = [i for i in range(si) if steps[i][0] == 'use']
-        before.sort(key=lambda i: (steps[i][1] != how, steps[i][1].split('-')[0] != how.split('-')[0]))
+        how0 = how.split('+')[0]
+        before.sort(key=lambda i: (steps[i][1] != how0, steps[i][1].split('-')[0] != how0.split('-')[0]))
         cands = [[steps[si]]] + [[steps[i], steps[si]] for i in before]
         for cand in cands[:8]:
             cs = with_gens(cand)
@@ -2540,7 +2795,14 @@ def main():
                 'two compile-time ways (typedefs=[module], typedefs=[mapping], constructors=, builderconfig=, semantics=) '
                 'given generation 1, later generation 2 (sometimes back to 1, or on to 3), parse-time semantics, the '
                 'module\'s own semantics class, tatsu.parse(typedefs=), and asmodel / plain / tatsu.parse without a '
-                'container in between, all under one parser name and grammar text. '
+                'container in between, all under one parser name and grammar text; every typedefs step hands the classes '
+                'over in one of the layouts one / split over 2-3 mappings or namespace classes / module + overlapping '
+                'mapping / constructors + typedefs. '
+                'L1: 6 (thorough 60) lexical-type grammars after the others: token rules tint tdec tword tflag typed '
+                'int/float/str/bool, a class or nothing (every second grammar int+float+bool), class-typed wrappers w0 w1 w2 '
+                'over 1-4 token rules (bare, override, named group), pair / seq / start around them, full chains X, X::Base, '
+                'X::Mid::Root, two or three classes named by case variants of one stem, sentences over small token pools '
+                '(0 1 2 7 10, 0.0 1.0 2.0 2.5 10.0, ?t ?); W1 method universe weighted towards the twin names. '
                 'Non-trivial: more than one node / input longer than 3 chars / history longer than 1; distinct by content hash.')
     chk.trusted += ['the canonicaliser Canon (Python object graph -> ObjModel.value, same case order as Node._cached_children)',
                     'oracle tables: iteration order of the Python set `pub.keys() - vars(BaseNode).keys()` per node '
@@ -2559,7 +2821,10 @@ def main():
                     'interleaving only, the verdict comes from the classes of the nodes, the answers of synthesize(name, ()) '
                     'and the count of classes the hook saw',
                     'K1 oracle (own Python code): the classes of a generation are vars(module) entries whose __module__ is the '
-                    'module name; the module file lives under /var/tmp/verif-c07-<pid> for the reload flavour']
+                    'module name; the module file lives under /var/tmp/verif-c07-<pid> for the reload flavour; '
+                    'layout_containers() partitions them over mappings and namespace classes (type(..) with the module name)',
+                    'L1 generator (own Python code): LexCase, case_variants(); its verdicts come from the O1 / W1 / D1 / B1 / K1 '
+                    'oracles; mixed_equal_scalars() only counts coverage']
     chk.assumptions += ['setord is a permutation of its input minus vars(BaseNode) names (Python set semantics)',
                         'vars(node) keys are distinct (dict) and node identities in a tree are distinct (tree-shaped) for the exactly-once statements',
                         'parent pointers are those present after children() has run on the parent (the code assigns them lazily there)',
